@@ -26,5 +26,11 @@ func (k Keeper) GetAccountInfo(goCtx context.Context, req *types.QueryGetAccount
 		return &types.QueryGetAccountInfoResponse{AccAddress: "Account Not found", PubKey: ""}, nil
 	}
 
-	return &types.QueryGetAccountInfoResponse{AccAddress: accountInfo.GetAddress().String(), PubKey: accountInfo.GetPubKey().String()}, nil
+	// an account that has not signed a transaction yet has no public key
+	pubKey := ""
+	if accountInfo.GetPubKey() != nil {
+		pubKey = accountInfo.GetPubKey().String()
+	}
+
+	return &types.QueryGetAccountInfoResponse{AccAddress: accountInfo.GetAddress().String(), PubKey: pubKey}, nil
 }
